@@ -4,6 +4,7 @@ package main
 // allocation clock, ghost world.
 
 import (
+	"go/ast"
 	"fmt"
 	"go/types"
 	"sort"
@@ -65,6 +66,7 @@ type HeapVer struct {
 }
 
 type State struct {
+	defers []deferRec // deferred closure literals of the functions on the (inlining) stack, oldest first
 	vars     map[types.Object]Term
 	fields   map[string]*HeapVer
 	ghost    map[string]Term // "W", model arrays "MF_<name>" (as HeapVer would be overkill)
@@ -100,6 +102,7 @@ func (s *State) clone() *State {
 		depth:    s.depth,
 		trace:    append([]string(nil), s.trace...),
 		astEpoch: s.astEpoch,
+		defers:   append([]deferRec(nil), s.defers...),
 	}
 	for k, v := range s.vars {
 		n.vars[k] = v
@@ -143,4 +146,10 @@ func sortedKeys[V any](m map[string]V) []string {
 	}
 	sort.Strings(ks)
 	return ks
+}
+
+// deferRec: `defer func() { … }()` registered at inlining depth `depth`; run (LIFO) when that function returns.
+type deferRec struct {
+	depth int
+	lit   *ast.FuncLit
 }
